@@ -133,8 +133,8 @@ def _hist(tier, lmax):
         k2 = [(0, 0, 1, 1), (0, 1, 0, 0), (2, 0, 0, 1), (4, 3, 0, 0)]
         k3 = [((1, 2, 0, 0), core)]
     else:
-        k2 = _tuples(4)
-        k3 = [(t, full) for t in [(0, 0, 1, 1), (1, 2, 0, 0), (2, 1, 0, 0), (0, 1, 0, 0)]] + [(t, core) for t in [(0, 0, 0, 1), (1, 0, 0, 1), (2, 2, 0, 0), (3, 4, 0, 0), (4, 3, 0, 0), (4, 4, 0, 0)]]
+        k2 = _tuples(4)[::2]
+        k3 = [(t, full) for t in [(1, 2, 0, 0)]] + [(t, core) for t in [(0, 0, 1, 1), (2, 1, 0, 0), (0, 1, 0, 0), (3, 4, 0, 0), (4, 4, 0, 0)]]
     for t in k2:
         for h1 in range(n):
             qs.append(_hq(t, lmax, 2, h1, -1, full))
